@@ -217,6 +217,13 @@ HAND_TEXTS = [
     "#ifdef X\nclass A;\n#endif\n", "#define X\n#ifdef X\nclass A {\n#endif\n}\n", "let in", "if then else", "foreach",
     "multiclass M { def x; } defm d : M;  \n\n", "class A<int x = 1> : B<x> { let y = x; }; ", "def a { }\t/* c */ // d",
     "class Foo\n// doc\nclass Bar;", "def X\n\n\n", "include \"a.td\"\nclass A;",
+    # a preprocessor directive / region directly AFTER a block statement is trailing trivia of that statement (wave 3: W5-m2, W6-m1)
+    "#ifndef G\n#define G\nclass A { int x; }\n#endif\n", "class A;\n#ifdef UNDEF\nclass B {\n#endif\nclass C;",
+    "def d { int x = 1; }\n  #define Y\nclass C;", "foreach i = [1] in def d;\n#ifdef Z\njunk ( \n#endif",
+    "multiclass M { def x; }\r\n#define K\r\ndefm z : M;", "let v = 1 in def e;\n#endif", "if 1 then def a; else def b;\n#ifdef U\n#endif\n",
+    "#define X\nclass Q { int a;\n#ifdef X\n int b;\n#endif\n}\n#ifdef X\n#endif\nlet v = 1 in { def e; }\n#ifndef X\nclass Never {\n#endif",
+    "defset list<A> S = { def a; }\n#define AFTER_DEFSET\n", "class A {\n  int x;\n#define IN_BODY\n}\n#define AFTER\n// c\n",
+    "include \"a.td\"\n#ifdef U\nx\n#endif\nclass B;\n#define Z",
 ]
 
 
